@@ -51,7 +51,7 @@ class Pair:
     """impl + model.  `ask(op)` sends op to the implementation, forwards the nondeterministic choice it
     reports (` order=...`, ` pick=...`) to the model as extra arguments, and returns both replies."""
 
-    CHOICE_KEYS = ("order=", "pick=", "sample=")
+    CHOICE_KEYS = ("order=", "pick=", "sample=", "part=", "owned=")
     # white-box listings the model does not mirror (they feed the property oracle only)
     IMPL_ONLY = ("wb.keys", "wb.frags", "c.scanall", "c.commands", "c.rawcmd", "c.sync", "c.add", "c.stop", "c.update",
                  "c.balance", "bg.compact", "bg.janitor", "wb.stats", "wb.mergex", "c.lockrace", "c.atomrace", "c.incrf", "c.atomxf", "c.getf")
